@@ -56,33 +56,41 @@ def gen_program(rng, tier):
 
 
 class Injector:
-    def __init__(self, faults):
+    def __init__(self, faults, exc='exception', async_sinks=False):
         self.faults = faults            # {fn name: set(call idx)}
         self.calls = []
         self.fns = {}
+        self.exc_class = F.FAULT_CLASSES[exc]
+        self.async_sinks = async_sinks
 
     def wrap(self, nid, kind, fn):
+        from .. import recorder as R
         name = '%s:%s' % (nid, kind)
-        f = F.Faulty(name, fn, self.faults.get(name, ()), self.calls)
+        f = F.Faulty(name, fn, self.faults.get(name, ()), self.calls, exc_class=self.exc_class, log=R.CURRENT,
+                     defer=(self.async_sinks and kind == 'sink'))
         self.fns[name] = f
         return f
 
 
-def build_with_keys(prog, inj):
-    """wrap key functions too: they are user functions"""
-    # progs.build_real resolves key names through F.KEYS; temporarily substitute wrapped versions
-    return None
-
-
-def run_with_faults(prog, inputs, mode, faults):
-    inj = Injector(faults)
+def run_with_faults(prog, inputs, mode, faults, exc='exception', async_sinks=False):
+    inj = Injector(faults, exc, async_sinks and mode == 'async')
     res = syncrun.run_case(prog, inputs, mode=mode, with_refs=True, fn_wrap=inj.wrap)
     res.inj = inj
     return res
 
 
+def _chain_has(exc, wanted):
+    seen = set()
+    while exc is not None and id(exc) not in seen:
+        if any(exc is w for w in wanted):
+            return True
+        seen.add(id(exc))
+        exc = exc.__cause__ or exc.__context__
+    return False
+
+
 def check_run(case, res, counters):
-    prog, inputs, faults = case['prog'], case['inputs'], case['faults']
+    prog, inputs = case['prog'], case['inputs']
     viols, seen = [], set()
 
     def add(key, what):
@@ -91,59 +99,52 @@ def check_run(case, res, counters):
             viols.append({'key': key, 'what': what, 'case': case})
     specs = {s['id']: s for s in prog['nodes']}
     log = res.log
-    # which emits had a failing invocation
-    entry_idx = None
-    failed_emit = {}            # emit index -> first fault uid
-    injected = 0
-    # walk log: ENTRY ... EMIT_DONE delimit one emit
+    # ground truth: FAULT events written by the injector at the moment it raises
     cur = None
-    raised_in_emit = {}
+    faults_in_emit = {}
     for e in log.ev:
         if e[2] == 'ENTRY':
             cur = e[4]
-        elif e[2] == 'RAISED' and isinstance(e[6], F.InjectedFault):
-            raised_in_emit.setdefault(cur, []).append(e[6])
-        elif e[2] == 'ACCEPTED' and isinstance(e[5], F.InjectedFault):
-            # coroutine-style update(): the failure is carried by its future
-            raised_in_emit.setdefault(cur, []).append(e[5])
+        elif e[2] == 'FAULT':
+            faults_in_emit.setdefault(cur, []).append(e)
     errs = dict(res.emit_errors)
+    injected = 0
     for i in range(len(inputs)):
         exc = errs.get(i)
-        want = raised_in_emit.get(i)
-        if want is not None:
+        want = [e[4] for e in faults_in_emit.get(i, [])]
+        if want:
             injected += 1
             counters['exception_identity_checks'] = counters.get('exception_identity_checks', 0) + 1
             if exc is None:
-                add('C16:fault-swallowed', 'emit #%d: invocation %s raised but emit returned normally' % (i, want[0].uid))
-            elif not any(exc is w for w in want):
+                add('C16:fault-swallowed', 'emit #%d: invocation %s raised %s but emit returned normally'
+                    % (i, want[0].uid, type(want[0]).__name__))
+            elif not _chain_has(exc, want):
                 add('C16:wrong-exception', 'emit #%d: injected %r, caller got %r' % (i, want, exc))
         elif exc is not None:
             add('C16:spurious-exception:%s' % type(exc).__name__, 'emit #%d raised %r without a failing invocation' % (i, exc))
     counters['faults_injected'] = counters.get('faults_injected', 0) + injected
     if res.node_loop_bound and injected:
         counters['faults_transported_through_sync'] = counters.get('faults_transported_through_sync', 0) + injected
-    # (2) state of the failing node
+    if case.get('async_sinks') and injected:
+        counters['faults_inside_sink_awaitables'] = counters.get('faults_inside_sink_awaitables', 0) + \
+            sum(1 for e in log.ev if e[2] == 'FAULT' and specs.get(e[3], {}).get('op') in ('sink', 'sink_flush'))
+    # (2) state of the failing node: the input being handled when its own function raised is removed
     ins = {}
     own_fail = {}
     for e in log.ev:
         if e[2] == 'IN':
             ins.setdefault(e[3], []).append([e[4], e[5], e[6], False])
-        elif (e[2] == 'RAISED' and isinstance(e[6], F.InjectedFault)) or \
-                (e[2] == 'ACCEPTED' and isinstance(e[5], F.InjectedFault)):
+        elif e[2] == 'FAULT':
             nid = e[3]
-            exc, x = (e[6], e[5]) if e[2] == 'RAISED' else (e[5], e[4])
-            if str(exc.uid[0]).split(':')[0] == nid and ins.get(nid):
-                # the most recent un-failed IN of this node with this value is the failing one
+            if ins.get(nid) and specs.get(nid, {}).get('op') not in ('sink', 'sink_flush'):
                 for rec in reversed(ins[nid]):
-                    if not rec[3] and (rec[1] is x or rec[1] == x):
-                        rec[3] = True
+                    if not rec[3]:
+                        rec[3] = True       # the most recent arrival is the one being handled (synchronous nodes)
                         break
                 own_fail[nid] = own_fail.get(nid, 0) + 1
     outs = syncrun.node_outs(log)
     for nid, nfail in own_fail.items():
         spec = specs[nid]
-        if spec['op'] in ('sink', 'sink_flush'):
-            continue
         ups = list(spec.get('ups', []))
         mn, mups = M.standalone(spec, len(ups))
         for who, x, md, failed in ins[nid]:
@@ -160,76 +161,44 @@ def check_run(case, res, counters):
                 'node %s (%s): %d own failure(s); outputs %s, reference on the non-failing inputs %s'
                 % (nid, spec['op'], nfail, real[:30], exp[:30]))
     # (3) failed elements are never signalled
-    failed_dicts = set()
+    failed_dicts = {}           # id(dict) -> all failures concerned metadata-less data (inherited attribution)
     for e in log.ev:
-        if e[2] == 'RAISED' and isinstance(e[6], F.InjectedFault):
-            # find the IN event of this RAISED: same node, same x, latest before
-            pass
-    # metadata seen by the raising update() call
-    last_in = {}
-    for e in log.ev:
-        if e[2] == 'IN':
-            last_in[(e[3], id(e[5]))] = e[6]
-        elif (e[2] == 'RAISED' and isinstance(e[6], F.InjectedFault)) or \
-                (e[2] == 'ACCEPTED' and isinstance(e[5], F.InjectedFault)):
-            md = last_in.get((e[3], id(e[5] if e[2] == 'RAISED' else e[4])))
-            for d in (md or []):
-                if isinstance(d, dict):
-                    failed_dicts.add(id(d))
-    # an emit whose only failures were (a) carried by the future of a coroutine-style update() and
-    # (b) hit a piece that carried no metadata (non-last piece of a flatten): the mechanism of the
-    # known finding "flatten attaches the counter to the last piece only"
-    # dicts that accompanied some failing data (by emit index)
-    carried = {}
-    last_in2 = {}
-    cur = None
-    for e in log.ev:
-        if e[2] == 'ENTRY':
-            cur = e[4]
-        elif e[2] == 'IN':
-            last_in2[(e[3], id(e[5]))] = e[6]
-        elif (e[2] == 'RAISED' and isinstance(e[6], F.InjectedFault)) or \
-                (e[2] == 'ACCEPTED' and isinstance(e[5], F.InjectedFault)):
-            md = last_in2.get((e[3], id(e[5] if e[2] == 'RAISED' else e[4])))
-            for d in (md or []):
-                if isinstance(d, dict):
-                    carried.setdefault(cur, set()).add(id(d))
-    elem_emit = {}
-    for i in raised_in_emit:
-        for d in res.mds[i]:
-            failed_dicts.add(id(d))
-            elem_emit[id(d)] = i
+        if e[2] == 'FAULT':
+            for did in e[5]:
+                failed_dicts[did] = failed_dicts.get(did, True) and bool(e[6])
     for did, (j, ref, d) in res.refs.items():
         if did in failed_dicts:
             counters['failed_element_signal_checks'] = counters.get('failed_element_signal_checks', 0) + 1
             if ref.triggers:
-                if did not in carried.get(elem_emit.get(did), set()) and any(sp['op'] == 'flatten' for sp in prog['nodes']):
+                if failed_dicts[did] and any(sp['op'] == 'flatten' for sp in prog['nodes']):
                     add('C16:failed-element-signalled:deferred-failure-of-metadata-less-flatten-piece',
                         'element %s: a non-last piece produced by flatten (which carries no metadata) failed inside a '
                         'coroutine-style node, the failure was carried by a future, the last piece went through and '
                         'the completion signal was given (by %s)' % (ref.uid, ref.trigger_blame[0]))
                 else:
                     add('C16:failed-element-signalled@%s' % (ref.trigger_blame[0].split('.')[0]),
-                        'element %s failed (emit raised) but its completion signal was given by %s' % (ref.uid, ref.trigger_blame[0]))
+                        'element %s failed but its completion signal was given by %s' % (ref.uid, ref.trigger_blame[0]))
     return viols, injected
 
 
-def enumerate_faults(prog, inputs, mode):
-    res = run_with_faults(prog, inputs, mode, {})
+def enumerate_faults(prog, inputs, mode, async_sinks=False):
+    res = run_with_faults(prog, inputs, mode, {}, 'exception', async_sinks)
     if res.hung or res.emit_errors:
         return None
     return list(res.inj.calls)
 
 
 def check_case(case, counters, sets):
-    res = run_with_faults(case['prog'], case['inputs'], case['mode'], {k: set(v) for k, v in case['faults'].items()})
+    res = run_with_faults(case['prog'], case['inputs'], case['mode'], {k: set(v) for k, v in case['faults'].items()},
+                          case.get('exc', 'exception'), case.get('async_sinks', False))
     if res.hung:
         return None, [], 0
     res.node_loop_bound = any(n.loop is not None for n in res.nodes.values()) and case['mode'] == 'plain'
     viols, injected = check_run(case, res, counters)
     for s in case['prog']['nodes']:
         sets.setdefault('node_types_seen', set()).add(s['op'])
-    sets.setdefault('modes', set()).add(case['mode'] + ('+loop-thread' if res.node_loop_bound else ''))
+    sets.setdefault('modes', set()).add(case['mode'] + ('+loop-thread' if res.node_loop_bound else '') + ('+async-sinks' if case.get('async_sinks') else ''))
+    sets.setdefault('fault_exception_classes', set()).add(case.get('exc', 'exception'))
     return res, viols, injected
 
 
@@ -240,7 +209,8 @@ def run_shard(seed, tier, shard, nshards):
     C = out['counters']
     for k in range(n_programs(tier)):
         prog, inputs, mode = gen_program(rng, tier)
-        calls = enumerate_faults(prog, inputs, mode)
+        async_sinks = mode == 'async' and rng.random() < 0.5
+        calls = enumerate_faults(prog, inputs, mode, async_sinks)
         if calls is None:
             out['inconclusive'].append('program %d: fault-free run failed' % k)
             continue
@@ -252,19 +222,21 @@ def run_shard(seed, tier, shard, nshards):
             for name, i in rng.sample(calls, min(len(calls), rng.choice([2, 3]))):
                 fs.setdefault(name, []).append(i)
             fault_sets.append(fs)
-        for fs in fault_sets:
-            case = {'prog': prog, 'inputs': inputs, 'mode': mode, 'faults': fs}
+        classes = list(F.FAULT_CLASSES)
+        for n_fs, fs in enumerate(fault_sets):
+            case = {'prog': prog, 'inputs': inputs, 'mode': mode, 'faults': fs, 'async_sinks': async_sinks,
+                    'exc': classes[(n_fs + k) % len(classes)]}
             res, viols, injected = check_case(case, C, out['sets'])
             out['evaluations'] += 1
             if res is None:
                 out['inconclusive'].append('program %d: blocking emit did not return' % k)
                 continue
             if injected:
-                out['keys'].append(progs.prog_key(prog, [inputs, mode, fs]))
+                out['keys'].append(progs.prog_key(prog, [inputs, mode, fs, case['exc'], async_sinks]))
             out['violations'].extend(viols)
             if len(out['samples']) < 2 and injected and getattr(res, 'stateful_checked', 0):
                 out['samples'].append({'program': [' '.join('%s=%s' % kv for kv in s.items() if kv[1] not in (None, [], {})) for s in prog['nodes']],
-                                       'inputs': inputs, 'mode': mode, 'fault_set': fs,
+                                       'inputs': inputs, 'mode': mode, 'fault_set': fs, 'exception_class': case['exc'], 'async_sinks': async_sinks,
                                        'emit_results': [[i, repr(e)] for i, e in res.emit_errors]})
     return out
 
